@@ -39,8 +39,13 @@ def c01(req):
     out = t.__str__(head_tail=True)
     if out == q:
         return {"violated": False, "observation": "printed identically"}
-    if _norm_numerals(out) == _norm_numerals(q) and re.search(r"[~^][0-9.]*[eE]", out) is None:
-        return {"violated": False, "observation": "printed identically up to numeral re-spelling: %r" % out}
+    if _norm_numerals(out) == _norm_numerals(q):
+        try:
+            t2 = parser.parse(out)
+            if t2 == t and t2.__str__(head_tail=True) == out:
+                return {"violated": False, "observation": "printed identically up to numeral re-spelling: %r" % out}
+        except Exception:  # noqa: BLE001
+            pass
     return {"violated": True, "observation": "parse(%r) prints %r" % (q, out)}
 
 
